@@ -167,19 +167,14 @@ class FeatureIDEReader(TextToModel):
             node.right.right = self._parse_rule(rule[0]).root
 
         elif rule.tag == FeatureIDEReader.TAG_DISJ:
-            if len(rule) > 1:
-                node = Node(ASTOperation.OR)
-                node.left = self._parse_rule(rule[0]).root
-                node.right = self._parse_rule(rule[1]).root
-
-            else:
-                node = self._parse_rule(rule[0]).root
-
+            node = self._parse_nary_rule(ASTOperation.OR, rule)
         elif rule.tag == FeatureIDEReader.TAG_CONJ:
-            if len(rule) > 1:
-                node = Node(ASTOperation.AND)
-                node.left = self._parse_rule(rule[0]).root
-                node.right = self._parse_rule(rule[1]).root
-            else:
-                node = self._parse_rule(rule[0]).root
+            node = self._parse_nary_rule(ASTOperation.AND, rule)
         return AST(node)
+
+    def _parse_nary_rule(self, operation: ASTOperation, rule: Element) -> Node:
+        """<conj> and <disj> can have any number of operands."""
+        node = self._parse_rule(rule[0]).root
+        for operand in rule[1:]:
+            node = Node(operation, node, self._parse_rule(operand).root)
+        return node
